@@ -102,6 +102,8 @@ FIXED = [
     ("two-span C0 quadratic", [0.0] * 3 + [0.5, 0.5] + [2.0] * 3, [(0, 0), (1, 2), (2, 0), (3, 2), (3, 3)], None),
     ("quarter circle", [0.0] * 3 + [1.0] * 3, [(1, 0), (1, 1), (0, 1)], [1, S2, 1]),
     ("half circle", [0.0] * 3 + [0.5, 0.5] + [1.0] * 3, [(1, 0), (1, 1), (0, 1), (-1, 1), (-1, 0)], [1, S2, 1, S2, 1]),
+    ("degree-elevated segment (clean() can reduce it)", [0.0] * 3 + [1.0] * 3, [(0, 0), (1, 0.5), (2, 1)], None),
+    ("parabola with constant weights (clean() can drop them)", [0.0] * 3 + [1.0] * 3, [(0, 0), (1, 2), (2, 0)], [2, 2, 2]),
     ("cubic spline 3 spans", [0.0] * 4 + [1.0, 2.5] + [3.0] * 4, [(0, 0), (1, 2), (2, -1), (3, 3), (0, 3), (1, 1)], None),
 ]
 
